@@ -1,6 +1,7 @@
 """C09 — reading untrusted bytes uses bounded time and memory per call (DESIGN §4 C09)."""
 from mirlib import *
 import bound_rules
+import packet_rules
 import pcw_rules
 import blob_rules
 import simple_rules
@@ -35,4 +36,5 @@ def run(ctx):
         ctx.call(blob_rules.read_bounded, prog, "R4")
         ctx.call(bound_rules.xml_parser_options, prog, "R5")
         ctx.call(bound_rules.no_growing_rescan, prog, "R6")
+        ctx.call(packet_rules.skip_length, prog, "R2")
     ctx.cfg = None
